@@ -343,3 +343,70 @@ def gen_datafits(rng, n, transcendental=False):
                 add("gradient_scalar_sparse", (data, indptr, indices, yy, Xw, j),
                     f"{vq(data)} {vz(indptr)} {vz(indices)} {vq(yy)} {vq(Xw)} {z(j)}", "chk_F", xq)
     return cases
+
+
+# ------------------------------------------------------------------ CD kernels (with concrete datafit / penalty)
+def gen_cd_kernels(rng, n):
+    """_cd_epoch(_sparse), construct_grad(_sparse), dist_fix_point_cd: real njit kernels with real compiled
+    Quadratic / Huber + L1 / MCP / box objects vs the generated kernels applied to the generated methods"""
+    import skglm.datafits.single_task as st
+    import skglm.solvers.anderson_cd as acd
+    import skglm.solvers.common as com
+    pf, sep, cc = _imp()
+    cases = []
+    small = [-2.0, -1.0, -0.5, 0.0, 0.0, 0.5, 1.0, 2.0]
+    for _ in range(max(1, n // 8)):
+        ns, p = rng.randint(1, 4), rng.randint(1, 4)
+        X = np.asfortranarray(np.array([[rng.choice(small) for _ in range(p)] for _ in range(ns)]))
+        if rng.random() < 0.4:
+            X[:, rng.randrange(p)] = 0.0                     # zero column: lc[j] = 0 -> stepsize 1000 branch
+        y = np.array([rng.choice(small) for _ in range(ns)])
+        w = np.array([rng.choice(small) for _ in range(p)])
+        Xw = X @ w + rng.choice([0.0, 0.5])
+        k = rng.randint(1, p)
+        ws = np.array(rng.sample(range(p), k), dtype=np.int64)
+        a, g_, pos = rng.choice([0.25, 0.5, 1.0]), rng.choice([3.0, 4.0]), rng.random() < 0.4
+        delta = rng.choice([0.5, 1.0])
+        data, indptr, indices = csc_of(X)
+        dfs = [("Quadratic", st.Quadratic(), lambda o: f"(Quadratic_gradient_scalar {vq(o.Xty)})",
+                lambda o: f"(Quadratic_gradient_scalar_sparse {vq(o.Xty)})"),
+               ("Huber", st.Huber(delta), lambda o: f"(Huber_gradient_scalar {q(delta)})",
+                lambda o: f"(Huber_gradient_scalar_sparse {q(delta)})")]
+        pens = [("L1", sep.L1(a, pos), f"(L1_prox_1d {q(a)} {b(pos)})"),
+                ("MCPenalty", sep.MCPenalty(a, g_, pos), f"(MCPenalty_prox_1d {q(a)} {q(g_)} {b(pos)})"),
+                ("IndicatorBox", sep.IndicatorBox(a), f"(IndicatorBox_prox_1d {q(a)})")]
+        dn, dinst, dgs, dgss = rng.choice(dfs)
+        pn, pinst, pprox = rng.choice(pens)
+        df, pen = cc(dinst), cc(pinst)
+        df.initialize(X, y)
+        lc = df.get_lipschitz(X, y)
+        # dense epoch
+        w1, Xw1 = w.copy(), Xw.copy()
+        ok = call_impl(acd._cd_epoch, X, y, w1, Xw1, lc, df, pen, ws)
+        exp = "None" if (ok is None and not np.all(np.isfinite(w1))) else f"(Some ({xvec(w1)[6:-1]}, {xvec(Xw1)[6:-1]}))"
+        cases.append((f"_cd_epoch[{dn},{pn}]({X.tolist()},{list(y)},{list(w)},{list(Xw)},{list(lc)},{list(ws)})",
+                      f"_cd_epoch {pprox} {dgs(df)} {mat(X)} {vq(y)} {vq(w)} {vq(Xw)} {vq(lc)} {vz(ws)}", "chk_VF2", exp))
+        # sparse epoch
+        df2 = cc(dinst)
+        df2.initialize_sparse(data, indptr, indices, y)
+        w2, Xw2 = w.copy(), Xw.copy()
+        call_impl(acd._cd_epoch_sparse, data, indptr, indices, y, w2, Xw2, lc, df2, pen, ws)
+        exp = f"(Some ({xvec(w2)[6:-1]}, {xvec(Xw2)[6:-1]}))"
+        cases.append((f"_cd_epoch_sparse[{dn},{pn}]({X.tolist()},{list(y)},{list(w)},{list(Xw)},{list(lc)},{list(ws)})",
+                      f"_cd_epoch_sparse {dgss(df2)} {pprox} {vq(data)} {vz(indptr)} {vz(indices)} {vq(y)} {vq(w)} {vq(Xw)} {vq(lc)} {vz(ws)}",
+                      "chk_VF2", exp))
+        # construct_grad (dense / sparse)
+        r = call_impl(com.construct_grad, X, y, w, Xw, df, ws)
+        cases.append((f"construct_grad[{dn}]({X.tolist()},{list(y)},{list(w)},{list(Xw)},{list(ws)})",
+                      f"construct_grad {dgs(df)} {mat(X)} {vq(y)} {vq(w)} {vq(Xw)} {vz(ws)}", "chk_VF", xvec(r)))
+        r = call_impl(com.construct_grad_sparse, data, indptr, indices, y, w, Xw, df2, ws)
+        cases.append((f"construct_grad_sparse[{dn}]({X.tolist()},{list(y)},{list(Xw)},{list(ws)})",
+                      f"construct_grad_sparse {dgss(df2)} {vq(data)} {vz(indptr)} {vz(indices)} {vq(y)} {vq(w)} {vq(Xw)} {vz(ws)}",
+                      "chk_VF", xvec(r)))
+        # dist_fix_point_cd
+        grad_ws = np.array([rng.choice(small) for _ in ws])
+        lws = lc[ws]
+        r = call_impl(com.dist_fix_point_cd, w, grad_ws, lws, df, pen, ws)
+        cases.append((f"dist_fix_point_cd[{pn}]({list(w)},{list(grad_ws)},{list(lws)},{list(ws)})",
+                      f"dist_fix_point_cd {pprox} {vq(w)} {vq(grad_ws)} {vq(lws)} {vz(ws)}", "chk_VF", xvec(r)))
+    return cases
